@@ -59,7 +59,7 @@ def sh(cmd, cwd, env=None, timeout=1800):
                           timeout=timeout, text=True)
 
 
-def build(flavours, need_cli, need_cli_race):
+def build(pid, flavours, need_cli, need_cli_race):
     global BUILD
     modfile = []
     if os.path.realpath(REPO) != "/repo":
@@ -78,9 +78,17 @@ def build(flavours, need_cli, need_cli_race):
         tag = "%d" % os.getpid()
         outs = {}
         jobs = []
+        # one binary per property: every other cmd/vh/prop_c*.go is hidden through a build
+        # overlay, so a property package that does not compile cannot break another check
+        import glob
+        mine = "prop_" + pid.lower() + ".go"
+        overlay = {f: "" for f in glob.glob(os.path.join(HARNESS, "cmd", "vh", "prop_c*.go")) if os.path.basename(f) != mine}
+        ovl = os.path.join(BUILD, "overlay-%s-%s.json" % (pid, tag))
+        json.dump({"Replace": overlay}, open(ovl, "w"))
+        modfile = modfile + ["-overlay=" + ovl]
         for fl in sorted(set(flavours)):
             flag = {"plain": [], "race": ["-race"], "asan": ["-asan"]}[fl]
-            dst = os.path.join(BUILD, "vh-" + fl)
+            dst = os.path.join(BUILD, "vh-" + fl + "-" + pid)
             jobs.append((["go", "build", "-tags", "verif"] + modfile + flag + ["-o", dst + "." + tag, "./cmd/vh"], HARNESS, dst))
             outs["vh-" + fl] = dst
         if need_cli:
@@ -99,6 +107,10 @@ def build(flavours, need_cli, need_cli_race):
                 log(r.stdout[-4000:])
                 return None
             os.replace(dst + "." + tag, dst)
+        try:
+            os.remove(ovl)
+        except OSError:
+            pass
         return outs
     finally:
         fcntl.flock(lock, fcntl.LOCK_UN)
@@ -224,7 +236,7 @@ def main():
         except Exception:
             pass
         flav = [(fl, 1, 1)]
-    bins = build([f for f, _, _ in flav], p.get("cli", False), p.get("cli_race", False))
+    bins = build(pid, [f for f, _, _ in flav], p.get("cli", False), p.get("cli_race", False))
     if bins is None:
         return 2
     os.makedirs(WORK, exist_ok=True)
